@@ -753,9 +753,11 @@ def classify(hit, orc):
         nv, tk, rq = d
         sp = pep440ref.parse_spec(rq)
         w = pep440ref.parse_version(tk[1])
-        mv = orc.mv.get((tk[0], rq), (0, [], []))[1]
-        if sp and w is not None and w.is_pre and tk[1] in mv:
-            return "F-C08-5"     # the client's plain matcher admits a pre-release that PEP 440 does not admit here
+        _, mv, withpre = orc.mv.get((tk[0], rq), (0, [], []))
+        if sp and w is not None and w.is_pre and (tk[1] in mv or tk[1] in withpre):
+            # the matcher itself (plain, or with pre-releases admitted) accepts a pre-release that PEP 440 does not
+            # accept for this specifier: unnamed pre-releases below an open lower bound, pre-releases of V for <V
+            return "F-C08-5"
         return None
     if clause == "stale_edge":
         fk, tk, rq, ty = d
